@@ -169,8 +169,16 @@ async fn scenario(mon: &Monitor, rng: &mut Rng, idx: u64) {
                     let b = *rng.pick(&buckets);
                     let id = id_in_bucket(&w.local, b, rng);
                     w.pool.push(id);
-                    tag += 1;
-                    batch.push((id, tag));
+                    // peers are identified by id: now and then a new peer arrives on an address string
+                    // that another peer already holds (same NAT / same host)
+                    let t = if tag > 0 && rng.chance(0.15) {
+                        mon.count("ops.address-shared-with-another-peer", 1);
+                        rng.urange(1, tag)
+                    } else {
+                        tag += 1;
+                        tag
+                    };
+                    batch.push((id, t));
                 }
                 if op == 0 {
                     let (id, t) = batch[0];
@@ -203,11 +211,18 @@ async fn scenario(mon: &Monitor, rng: &mut Rng, idx: u64) {
             2 => {
                 // re-add an id already generated (present or removed)
                 if let Some(id) = (!w.pool.is_empty()).then(|| *rng.pick(&w.pool)) {
-                    tag += 1;
-                    let r = if rng.chance(0.5) {
-                        w.eng.add_node(ninfo(id, tag)).await
+                    // a known peer comes back: on a fresh address, or on one some other peer holds
+                    let t = if tag > 0 && rng.chance(0.4) {
+                        mon.count("ops.address-shared-with-another-peer", 1);
+                        rng.urange(1, tag)
                     } else {
-                        w.eng.join_network(vec![ninfo(id, tag)]).await
+                        tag += 1;
+                        tag
+                    };
+                    let r = if rng.chance(0.5) {
+                        w.eng.add_node(ninfo(id, t)).await
+                    } else {
+                        w.eng.join_network(vec![ninfo(id, t)]).await
                     };
                     w.hist.push(format!("re-add {} (present={}) -> {}", hex8(&id), w.model.contains(&id), if r.is_ok() { "ok" } else { "err" }));
                     if r.is_ok() {
